@@ -301,7 +301,7 @@ type request struct {
 }
 
 func runCase(rq *request) M {
-	if rq.Mode == "compile" {
+	if rq.Mode == "compile" || rq.Mode == "denote" {
 		return runCompileCase(rq)
 	}
 	ev := M{"id": rq.ID, "ev": "Eval", "fam": rq.Fam}
